@@ -66,12 +66,9 @@ func hMethodOK(sp hRouteSpec, method string) bool {
 }
 
 // verif:harness props=C10 tier=quick native=yes weight=20
-// verif:bounds 2 routes (thorough 3) in configuration order, each with channel type from {default, inbound, outbound, internal}, path from {/a, /a/b, /}, methods none or {GET,PUT} (thorough: optional host criterion); request path from {/a, /a/b, /a/b/c, /ab, /z}, method from {POST, GET}, host from {x.example.com, other}
+// verif:bounds 2 routes in configuration order, each with channel type from {default, inbound, outbound, internal}, path from {/a, /a/b, /}, methods none or {GET,PUT} (thorough: optional host criterion); request path from {/a, /a/b, /a/b/c, /ab, /z}, method from {POST, GET}, host from {x.example.com, other}
 func VerifC10Resolve() {
-	n := 2
-	if vrt.Thorough() {
-		n = 3
-	}
+	n := 2 // (three routes with four channel types each exceed the path limit; the thorough tier adds the host criterion)
 	specs := make([]hRouteSpec, n)
 	var routes []config.CompiledRoute
 	for i := range specs {
